@@ -27,3 +27,22 @@ func (e *W3) Unwrap() error { return e.Err }
 func (e *W1) ErrorKeyMarker() string { return "ext" }
 func (e *W2) ErrorKeyMarker() string { return "ext" }
 func (e *W3) ErrorKeyMarker() string { return "ext" }
+
+// named slice types as error types (a list of codes): the type's own package path
+// is that of the NAMED type, not of its element type
+type S1 []int
+type S2 []int
+type S3 []int
+
+func (e S1) Error() string { return "codes" }
+func (e S2) Error() string { return "codes" }
+func (e S3) Error() string { return "codes" }
+
+// generic error types: the instantiation is part of the type's name
+type G1[T any] struct{ V T }
+type G2[T any] struct{ V T }
+type G3[T any] struct{ V T }
+
+func (e *G1[T]) Error() string { return "generic" }
+func (e *G2[T]) Error() string { return "generic" }
+func (e *G3[T]) Error() string { return "generic" }
